@@ -1,109 +1,357 @@
-(** * C14 — proofs about the decision-table model. *)
+(** * C14 — corollaries of the decision table. *)
 From Coq Require Import List Bool.
 Import ListNotations.
-From Attrs Require Import C14.Model.
+From Attrs Require Import C14.Model C14.Factor.
 
-(** ** 1. [wrap] factors into "error or the writes the specification asks for". *)
+Definition no_error (c : cfg) : Prop := spec_error c = None.
 
-Definition writes_of (c : cfg) : list (dn * wr) :=
-  (if c_frozen c then [(Dsa, WGen); (Dda, WGen)] else []) ++
-  (if generate c GPickle then [(Dg, WGen); (Dst, WGen)] else []) ++
-  (if generate c GRepr then [(Dr, WGen)] else []) ++
-  (if str_arg c then [(Ds, WGen)] else []) ++
-  (if generate c GEq then [(De, WGen); (Dne, WGen)] else []) ++
-  (if generate c GOrder then [(Dlt, WGen); (Dle, WGen); (Dgt, WGen); (Dge, WGen)] else []) ++
-  (match spec_hash c with HUntouched => [] | HGenerated => [(Dh, WGen)] | HUnhashable => [(Dh, WNone)] end) ++
-  (if generate c GInit then [(Di, WGen)] else [(Da, WGen)]) ++
-  (if generate c GMatch then [(Dm, WGen)] else []).
-
-Lemma own_is_class_defines c d : has_own_attribute c d = class_defines c d.
+Lemma prov_at_decide c d : no_error c -> prov_at (decide c) d = Some (spec_found c d).
 Proof.
-  unfold has_own_attribute, in_cls_dict, class_defines, body_defines.
-  destruct d; cbn; rewrite ?orb_false_r; reflexivity.
+  unfold no_error. intros H. rewrite decision_table_l. unfold spec. rewrite H.
+  destruct d; reflexivity.
 Qed.
 
-Lemma existsb_own c l : existsb (has_own_attribute c) l = existsb (class_defines c) l.
-Proof. induction l as [|d l IH]; cbn; [reflexivity|]. rewrite own_is_class_defines, IH. reflexivity. Qed.
+Lemma decide_error_iff c e : decide c = RErr e <-> spec_error c = Some e.
+Proof.
+  rewrite decision_table_l. unfold spec. destruct (spec_error c) as [e'|]; split; intros H;
+  try discriminate; congruence.
+Qed.
 
-Lemma dwti_generic c flag ad dunders default :
-  determine_whether_to_implement c flag ad dunders default =
-  match flag with
-  | tT => true | tF => false
-  | tN => if ad && existsb (class_defines c) dunders then false else default
+Lemma decide_ok_iff c : (exists ps, decide c = ROk ps) <-> no_error c.
+Proof.
+  unfold no_error. rewrite decision_table_l. unfold spec.
+  destruct (spec_error c); split; intros H; try discriminate; eauto.
+  destruct H as [ps H]; discriminate.
+Qed.
+
+(** ** 4. Corollaries. *)
+
+(** What "not touched by attrs" looks like for a name: the user's object when the body
+    defines it; otherwise nothing of its own (inherited / absent), except that Python
+    puts [__hash__ = None] next to an [__eq__] in the namespace. *)
+Definition untouched (c : cfg) (d : dn) : prov :=
+  if body_defines c d then pU
+  else match d with
+       | Dh => if body_defines c De then pZ else if slots c && generate c GEq then pZ else pA
+       | _ => pA
+       end.
+
+Definition group_generated (c : cfg) (g : group) : Prop :=
+  forall d, In d (members g) -> prov_at (decide c) d = Some pG.
+Definition group_untouched (c : cfg) (g : group) : Prop :=
+  forall d, In d (members g) -> prov_at (decide c) d = Some (untouched c d).
+
+Ltac members_cases H :=
+  cbn [members In] in H;
+  repeat match type of H with _ \/ _ => destruct H as [H|H] | False => destruct H end; try subst.
+
+Lemma generate_true c g : no_error c -> g <> GHash -> generate c g = true -> group_generated c g.
+Proof.
+  intros Hn Hg H d Hd. rewrite (prov_at_decide c d Hn). f_equal.
+  unfold spec_found. destruct g; try congruence; members_cases Hd; cbn [spec_written]; rewrite H; reflexivity.
+Qed.
+
+Lemma generate_false c g : no_error c -> g <> GHash -> generate c g = false -> group_untouched c g.
+Proof.
+  intros Hn Hg H d Hd. rewrite (prov_at_decide c d Hn). f_equal.
+  unfold spec_found, untouched. destruct g; try congruence; members_cases Hd; cbn [spec_written]; rewrite H; reflexivity.
+Qed.
+
+Lemma generated_untouched_exclusive c g : group_generated c g -> group_untouched c g -> False.
+Proof.
+  intros H1 H2.
+  assert (exists d, In d (members g)) as [d Hd] by (destruct g; cbn; eauto).
+  specialize (H1 d Hd). specialize (H2 d Hd). rewrite H1 in H2. inversion H2 as [H3].
+  unfold untouched in H3. destruct (body_defines c d); try discriminate.
+  destruct d; try discriminate. destruct (body_defines c De); try discriminate.
+  destruct (slots c && generate c GEq); discriminate.
+Qed.
+
+(** An explicit True / False is obeyed (after the documented aliasing of [cmp],
+    [unsafe_hash] and a mirrored [order]).  For hash see [hash_flag_obeyed_l]. *)
+Theorem flag_obeyed_l : forall c g, no_error c -> g <> GHash ->
+  (explicit_flag c g = tT -> group_generated c g) /\
+  (explicit_flag c g = tF -> group_untouched c g).
+Proof.
+  intros c g Hn Hg. split; intros H.
+  - apply generate_true; auto. unfold generate. rewrite H. reflexivity.
+  - apply generate_false; auto. unfold generate. rewrite H. reflexivity.
+Qed.
+
+Theorem hash_flag_obeyed_l : forall c, no_error c ->
+  (explicit_flag c GHash = tT -> prov_at (decide c) Dh = Some pG) /\
+  (explicit_flag c GHash = tF -> prov_at (decide c) Dh = Some (untouched c Dh)).
+Proof.
+  intros c Hn. rewrite (prov_at_decide c Dh Hn). unfold spec_found, untouched, spec_written, spec_hash.
+  split; intros ->; reflexivity.
+Qed.
+
+(** The raw keyword arguments and the flag of their group. *)
+Lemma raw_flags c :
+  explicit_flag c GInit = c_init c /\ explicit_flag c GRepr = c_repr c /\
+  explicit_flag c GPickle = c_gs c /\
+  (c_cmp c = tN -> explicit_flag c GEq = c_eq c) /\
+  (c_cmp c <> tN -> explicit_flag c GEq = c_cmp c /\ explicit_flag c GOrder = c_cmp c) /\
+  (c_cmp c = tN -> forall o, c_order c = Some o -> o <> tN -> explicit_flag c GOrder = o) /\
+  (c_uhash c <> tN -> explicit_flag c GHash = c_uhash c) /\
+  (c_uhash c = tN -> explicit_flag c GHash = c_hash c) /\
+  (c_ma c = Some false -> explicit_flag c GMatch = tF).
+Proof.
+  destruct c as [a ad sl fr ini rp st cmp eq ord h uh gs ma own inh]; cbn.
+  repeat match goal with |- _ /\ _ => split end; try reflexivity.
+  - intros ->; reflexivity.
+  - intros H; destruct cmp; try (split; reflexivity); congruence.
+  - intros -> o -> Ho. destruct o; try reflexivity; congruence.
+  - intros H; destruct uh; try reflexivity; congruence.
+  - intros ->; reflexivity.
+  - intros ->. reflexivity.
+Qed.
+
+(** Without an explicit flag and with auto-detection, the group is skipped iff the
+    class body defines one of its methods — whichever subset; otherwise the default. *)
+Theorem auto_detect_iff_own_l : forall c g, no_error c -> g <> GHash ->
+  explicit_flag c g = tN -> detects c g = true ->
+  (existsb (body_defines c) (members g) = true -> group_untouched c g) /\
+  (existsb (body_defines c) (members g) = false ->
+     if documented_default c g then group_generated c g else group_untouched c g).
+Proof.
+  intros c g Hn Hg Hf Hd.
+  assert (existsb (class_defines c) (members g) = existsb (body_defines c) (members g)) as He.
+  { destruct g; try congruence; cbn; unfold class_defines; rewrite ?orb_false_r; reflexivity. }
+  split; intros H.
+  - apply generate_false; auto. unfold generate. rewrite Hf, Hd, He, H. reflexivity.
+  - assert (generate c g = documented_default c g) as Hg2.
+    { unfold generate. rewrite Hf, Hd, He, H. reflexivity. }
+    destruct (documented_default c g).
+    + apply generate_true; auto.
+    + apply generate_false; auto.
+Qed.
+
+Corollary auto_detect_iff : forall c g, no_error c -> g <> GHash ->
+  explicit_flag c g = tN -> detects c g = true -> documented_default c g = true ->
+  (group_untouched c g <-> exists d, In d (members g) /\ body_defines c d = true).
+Proof.
+  intros c g Hn Hg Hf Hd Hdef.
+  destruct (auto_detect_iff_own_l c g Hn Hg Hf Hd) as [H1 H2]. rewrite Hdef in H2.
+  rewrite <- existsb_exists. split.
+  - intros Hu. destruct (existsb (body_defines c) (members g)) eqn:E; [reflexivity|].
+    exfalso. eapply generated_untouched_exclusive; eauto.
+  - exact H1.
+Qed.
+
+(** Without auto-detection and without a flag the default applies, whatever the body defines. *)
+Theorem no_auto_detect_default_l : forall c g, no_error c -> g <> GHash ->
+  explicit_flag c g = tN -> detects c g = false ->
+  if documented_default c g then group_generated c g else group_untouched c g.
+Proof.
+  intros c g Hn Hg Hf Hd.
+  assert (generate c g = documented_default c g) as Hg2.
+  { unfold generate. rewrite Hf, Hd. reflexivity. }
+  destruct (documented_default c g); [apply generate_true | apply generate_false]; auto.
+Qed.
+
+(** Hash: the documented table (C04 interpretation (v)), with "own" = in the class's
+    namespace as Python built it. *)
+Theorem hash_table_l : forall c, no_error c -> explicit_flag c GHash = tN ->
+  prov_at (decide c) Dh = Some
+    (if auto_detect c && class_defines c Dh then untouched c Dh
+     else if negb (generate c GEq) then untouched c Dh
+     else if c_frozen c then pG else pZ).
+Proof.
+  intros c Hn Hf. rewrite (prov_at_decide c Dh Hn). f_equal.
+  unfold spec_found, untouched, spec_written, spec_hash. rewrite Hf.
+  destruct (auto_detect c && class_defines c Dh), (negb (generate c GEq)), (c_frozen c); reflexivity.
+Qed.
+
+(** Methods defined by a base class never influence any decision. *)
+Definition with_inh (c : cfg) (inh : dset) : cfg :=
+  C (c_api c) (c_ad c) (c_slots c) (c_frozen c) (c_init c) (c_repr c) (c_str c) (c_cmp c)
+    (c_eq c) (c_order c) (c_hash c) (c_uhash c) (c_gs c) (c_ma c) (c_own c) inh.
+
+Theorem inherited_methods_irrelevant_l : forall c inh, decide (with_inh c inh) = decide c.
+Proof. intros [a ad sl fr ini rp st cmp eq ord h uh gs ma own inh0] inh. reflexivity. Qed.
+
+(** Defaults. *)
+Theorem defaults_l : forall c,
+  (c_api c = AttrS -> c_cmp c = tN -> (c_order c = None \/ c_order c = Some tN) ->
+     explicit_flag c GOrder = explicit_flag c GEq) /\
+  (c_api c = Define -> c_cmp c = tN -> c_order c = None -> explicit_flag c GOrder = tF) /\
+  (c_api c = Define -> c_cmp c = tN -> c_order c = Some tN ->
+     explicit_flag c GOrder = explicit_flag c GEq) /\
+  documented_default c GPickle = slots c /\
+  (c_str c = None -> str_arg c = false) /\
+  (c_ad c = None -> auto_detect c = match c_api c with AttrS => false | Define => true end) /\
+  (c_slots c = None -> slots c = match c_api c with AttrS => false | Define => true end) /\
+  (c_ma c = None -> match_args c = true).
+Proof.
+  intros [a ad sl fr ini rp st cmp eq ord h uh gs ma own inh]; cbn.
+  repeat match goal with |- _ /\ _ => split end; try reflexivity.
+  - intros -> -> [-> | ->]; reflexivity.
+  - intros -> -> ->; reflexivity.
+  - intros -> -> ->; reflexivity.
+  - intros ->; destruct a; reflexivity.
+  - intros ->; destruct a; reflexivity.
+  - intros ->; destruct a; reflexivity.
+  - intros ->; destruct a; reflexivity.
+Qed.
+
+Theorem order_off_under_define_l : forall c, no_error c ->
+  c_api c = Define -> c_order c = None -> group_untouched c GOrder.
+Proof.
+  intros c Hn Ha Ho. apply (proj2 (flag_obeyed_l c GOrder Hn ltac:(discriminate))).
+  unfold no_error, spec_error in Hn. unfold explicit_flag. rewrite Ha, Ho.
+  rewrite Ha in Hn. destruct (c_cmp c); try discriminate; reflexivity.
+Qed.
+
+Theorem pickling_follows_slots_l : forall c, no_error c -> c_gs c = tN ->
+  auto_detect c && existsb (body_defines c) [Dg; Dst] = false ->
+  if slots c then group_generated c GPickle else group_untouched c GPickle.
+Proof.
+  intros c Hn Hf H.
+  assert (generate c GPickle = slots c) as Hg.
+  { unfold generate, explicit_flag, detects, documented_default. rewrite Hf.
+    replace (existsb (class_defines c) (members GPickle)) with (existsb (body_defines c) [Dg; Dst])
+      by (cbn; unfold class_defines; rewrite ?orb_false_r; reflexivity).
+    rewrite H. reflexivity. }
+  destruct (slots c); [apply generate_true | apply generate_false]; auto; discriminate.
+Qed.
+
+Theorem str_off_l : forall c, no_error c ->
+  prov_at (decide c) Ds = Some (if str_arg c then pG else untouched c Ds).
+Proof.
+  intros c Hn. rewrite (prov_at_decide c Ds Hn). unfold spec_found, untouched, spec_written.
+  destruct (str_arg c); reflexivity.
+Qed.
+
+(** When no [__init__] is generated, [__attrs_init__] is — and only then. *)
+Theorem attrs_init_iff_no_init_l : forall c, no_error c ->
+  (prov_at (decide c) Di = Some pG /\ prov_at (decide c) Da = Some pA) \/
+  (prov_at (decide c) Di = Some (untouched c Di) /\ prov_at (decide c) Da = Some pG).
+Proof.
+  intros c Hn. rewrite !(prov_at_decide c _ Hn). unfold spec_found, untouched, spec_written, body_defines.
+  cbn [mem]. destruct (generate c GInit); [left | right]; split; reflexivity.
+Qed.
+
+(** ** 5. User methods are preserved. *)
+
+(** Was attrs told to produce name [d]?  By an explicit True for its group, or by the
+    documented default when the class namespace is not consulted (auto_detect off);
+    [str=True]; [frozen=True] for [__setattr__]/[__delattr__]; never for an own
+    [__match_args__]. *)
+Definition group_of (d : dn) : option group :=
+  match d with
+  | Di => Some GInit | Dr => Some GRepr | De | Dne => Some GEq
+  | Dlt | Dle | Dgt | Dge => Some GOrder | Dh => Some GHash | Dg | Dst => Some GPickle
+  | Dm => Some GMatch | Da | Ds | Dsa | Dda => None
   end.
+
+Definition told (c : cfg) (d : dn) : bool :=
+  match d with
+  | Ds => str_arg c
+  | Dsa | Dda => c_frozen c
+  | Da => true
+  | Dm => false
+  | _ => match group_of d with
+         | Some g => match explicit_flag c g with
+                     | tT => true | tF => false | tN => negb (auto_detect c)
+                     end
+         | None => false
+         end
+  end.
+
+Theorem user_methods_preserved_l : forall c d, no_error c ->
+  body_defines c d = true -> told c d = false -> prov_at (decide c) d = Some pU.
 Proof.
-  unfold determine_whether_to_implement. rewrite existsb_own.
-  destruct flag, ad, (existsb (class_defines c) dunders); reflexivity.
+  intros c d Hn Hb Ht. rewrite (prov_at_decide c d Hn). f_equal.
+  unfold spec_found.
+  assert (spec_written c d = None) as ->; [| rewrite Hb; reflexivity].
+  assert (class_defines c d = true) as Hc by (unfold class_defines; rewrite Hb; reflexivity).
+  unfold body_defines in Hb.
+  destruct d; cbn [told group_of] in Ht; cbn [spec_written]; try discriminate;
+  unfold spec_hash, generate, detects;
+  try (destruct (explicit_flag c _); try discriminate;
+       try (apply negb_false_iff in Ht; rewrite Ht); cbn [members existsb]; rewrite ?Hc, ?orb_true_r;
+       cbn [andb orb]; reflexivity);
+  try (rewrite Ht; reflexivity).
+  - (* __match_args__ *)
+    cbn [members existsb]. rewrite Hc. destruct (explicit_flag c GMatch) eqn:E; try reflexivity.
+    revert E. unfold explicit_flag. destruct (match_args c); discriminate.
 Qed.
 
-Lemma eq_order_flags c :
-  match c_api c, c_cmp c with Define, tT | Define, tF => True | _, _ =>
-  match determine_attrs_eq_order (c_cmp c) (c_eq c) (order_arg c) with
-  | Some (e, o) => e = explicit_flag c GEq /\ o = explicit_flag c GOrder /\
-                   (negb (is_none (c_cmp c)) && (negb (is_none (c_eq c)) || negb (is_none (order_arg c)))) = false /\
-                   (is_none (c_cmp c) && is_false (c_eq c) && is_true (order_arg c)) = false
-  | None => (negb (is_none (c_cmp c)) && (negb (is_none (c_eq c)) || negb (is_none (order_arg c)))) = true \/
-            ((negb (is_none (c_cmp c)) && (negb (is_none (c_eq c)) || negb (is_none (order_arg c)))) = false /\
-             (is_none (c_cmp c) && is_false (c_eq c) && is_true (order_arg c)) = true)
-  end end.
+(** And attrs never removes: a name the body defines is found on the class either as
+    the user's object or, when attrs was told to, replaced by the generated one
+    ([__hash__]: possibly by [None]) — never absent. *)
+Theorem never_removed_l : forall c d, no_error c -> body_defines c d = true ->
+  prov_at (decide c) d = Some pU \/
+  (told c d = true /\ (prov_at (decide c) d = Some pG \/ (d = Dh /\ prov_at (decide c) d = Some pZ))).
 Proof.
-  destruct c as [a ad sl fr ini rp st cmp eq ord h uh gs ma own inh].
-  destruct a, cmp, eq, ord as [[]|]; cbn; auto.
+  intros c d Hn Hb. destruct (told c d) eqn:Ht.
+  - rewrite (prov_at_decide c d Hn). unfold spec_found. rewrite Hb.
+    destruct (spec_written c d) as [p|] eqn:E; [|left; reflexivity].
+    right. split; [reflexivity|].
+    destruct d; cbn [spec_written] in E;
+    repeat match type of E with
+           | (if ?b then _ else _) = _ => destruct b
+           | match spec_hash ?c with _ => _ end = _ => destruct (spec_hash c)
+           end; inversion E; subst; auto.
+  - left. apply user_methods_preserved_l; assumption.
 Qed.
 
-Lemma wrap_factored c :
-  wrap c = match spec_error c with Some e => Err e | None => Ok (writes_of c) end.
+(** ** 6. Non-vacuity witnesses and a refuted literal reading. *)
+
+Definition no_own : dset := DS false false false false false false false false false false false false false false false.
+Definition bare (a : api) (own : dset) : cfg :=
+  C a None None false tN tN None tN tN None tN tN tN None own no_own.
+
+(** [@define] on a body defining [__eq__] only: eq+ne skipped, the user's [__eq__] kept,
+    Python's [__hash__ = None] kept, everything else generated, order off. *)
+Example ex_define_own_eq :
+  let c := bare Define (DS false false false true false false false false false false false false false false false) in
+  no_error c /\ decide c = ROk [pG; pA; pG; pA; pU; pA; pA; pA; pA; pA; pZ; pG; pG; pG; pA; pA].
+Proof. split; reflexivity. Qed.
+
+(** [@attr.s] on the same body: no auto-detection, the default replaces [__eq__], adds order. *)
+Example ex_attrs_own_eq :
+  let c := bare AttrS (DS false false false true false false false false false false false false false false false) in
+  no_error c /\ told c De = true /\
+  decide c = ROk [pG; pA; pG; pA; pG; pG; pG; pG; pG; pG; pZ; pA; pA; pG; pA; pA].
+Proof. repeat split; reflexivity. Qed.
+
+(** explicit True replaces (flag obeyed), explicit False keeps. *)
+Example ex_flag_true_replaces :
+  let c := C Define None None false tN tT None tN tN None tN tN tN None
+             (DS false true false false false false false false false false false false false false false) no_own in
+  no_error c /\ explicit_flag c GRepr = tT /\ prov_at (decide c) Dr = Some pG.
+Proof. repeat split; reflexivity. Qed.
+
+Example ex_flag_false_keeps :
+  let c := C AttrS None None false tF tN None tN tN None tN tN tN None
+             (DS true false false false false false false false false false false false false false false) no_own in
+  no_error c /\ explicit_flag c GInit = tF /\ told c Di = false /\
+  prov_at (decide c) Di = Some pU /\ prov_at (decide c) Da = Some pG.
+Proof. repeat split; reflexivity. Qed.
+
+(** the four definition-time rejections are reachable *)
+Example ex_errors :
+  decide (C Define None None false tN tN None tT tN None tN tN tN None no_own no_own) = RErr EType /\
+  decide (C AttrS None None false tN tN None tT tT None tN tN tN None no_own no_own) = RErr EValue /\
+  decide (C AttrS None None false tN tN None tN tF (Some tT) tN tN tN None no_own no_own) = RErr EValue /\
+  decide (C Define None None true tN tN None tN tN None tN tN tN None
+            (DS false false false false false false false false false false false false false true false) no_own) = RErr EValue /\
+  decide (C AttrS None None false tN tF (Some true) tN tN None tN tN tN None no_own no_own) = RErr EValue.
+Proof. repeat split; reflexivity. Qed.
+
+(** Reading "defined in the class body" literally for [__hash__] is refuted by the
+    faithful model: frozen + explicit [eq=True] + a body-defined [__eq__] and no
+    [__hash__] under auto-detection.  The table's default (eq and frozen => generated)
+    would give [pG]; the class keeps Python's implicit [__hash__ = None], because
+    [_has_own_attribute(cls, "__hash__")] sees it.  (docs/C14.md, interpretation (vi).) *)
+Theorem literal_body_reading_of_hash_refuted_l :
+  exists c, no_error c /\ explicit_flag c GHash = tN /\ auto_detect c = true /\
+            body_defines c Dh = false /\ generate c GEq = true /\ c_frozen c = true /\
+            prov_at (decide c) Dh = Some pZ.
 Proof.
-  pose proof (eq_order_flags c) as HF.
-  unfold wrap, spec_error.
-  destruct (c_api c) eqn:Ha, (c_cmp c) eqn:Hc; try reflexivity;
-  (destruct (determine_attrs_eq_order _ (c_eq c) (order_arg c)) as [[e o]|];
-   [ destruct HF as (-> & -> & -> & ->) | destruct HF as [-> | [-> ->]]; reflexivity ]);
-  rewrite !dwti_generic, !own_is_class_defines;
-  unfold writes_of, spec_hash;
-  change (class_defines c Dsa) with (body_defines c Dsa || false); rewrite orb_false_r;
-  replace (if is_none (c_uhash c) then c_hash c else c_uhash c) with (explicit_flag c GHash)
-    by (unfold explicit_flag; destruct (c_uhash c); reflexivity);
-  change (match explicit_flag c GEq with tN => if auto_detect c && existsb (class_defines c) eq_dunders then false else true | tT => true | tF => false end)
-    with (generate c GEq);
-  change (match explicit_flag c GOrder with tN => if auto_detect c && existsb (class_defines c) order_dunders then false else true | tT => true | tF => false end)
-    with (generate c GOrder);
-  change (match c_gs c with tN => if auto_detect c && existsb (class_defines c) gs_dunders then false else slots c | tT => true | tF => false end)
-    with (generate c GPickle);
-  change (match c_repr c with tN => if auto_detect c && existsb (class_defines c) repr_dunders then false else true | tT => true | tF => false end)
-    with (generate c GRepr);
-  change (match c_init c with tN => if auto_detect c && existsb (class_defines c) init_dunders then false else true | tT => true | tF => false end)
-    with (generate c GInit);
-  replace (match_args c && negb (class_defines c Dm)) with (generate c GMatch)
-    by (unfold generate, explicit_flag, detects, documented_default, members; cbn [existsb];
-        destruct (match_args c), (class_defines c Dm); reflexivity);
-  destruct (generate c GEq), (generate c GRepr), (explicit_flag c GHash), (auto_detect c),
-    (class_defines c Dh), (c_frozen c), (str_arg c), (body_defines c Dsa); reflexivity.
-Qed.
-
-(** ** 2. Looking a name up in the accumulated writes. *)
-
-Lemma assoc_app d l1 l2 :
-  assoc d (l1 ++ l2) = match assoc d l2 with Some w => Some w | None => assoc d l1 end.
-Proof.
-  induction l1 as [|[k w] l1 IH]; cbn.
-  - destruct (assoc d l2); reflexivity.
-  - rewrite IH. destruct (assoc d l2); reflexivity.
-Qed.
-
-Lemma assoc_if d (b : bool) l1 l2 :
-  assoc d (if b then l1 else l2) = if b then assoc d l1 else assoc d l2.
-Proof. destruct b; reflexivity. Qed.
-
-Lemma if_same {A} (b : bool) (x : A) : (if b then x else x) = x.
-Proof. destruct b; reflexivity. Qed.
-
-Definition wr_of_prov (p : prov) : wr := match p with pZ => WNone | _ => WGen end.
-
-Lemma assoc_writes_of c d :
-  assoc d (writes_of c) = option_map wr_of_prov (spec_written c d).
-Proof.
-  unfold writes_of. rewrite !assoc_app, !assoc_if.
-  destruct (spec_hash c) eqn:Hh, d; cbn [assoc dn_eqb spec_written]; rewrite ?if_same, ?Hh;
-  repeat match goal with |- context [if ?b then _ else _] => destruct b end; reflexivity.
+  exists (C Define None (Some false) true tN tN None tN tT None tN tN tN None
+            (DS false false false true false false false false false false false false false false false) no_own).
+  repeat split; reflexivity.
 Qed.
